@@ -11,14 +11,16 @@ use std::rc::Rc;
 use time::{Date, Duration, Weekday};
 
 #[derive(Clone, Debug)]
-pub struct FxCase { pub cal: Calendar, pub today: Date, pub cutoff: Date, pub lookups: Vec<Date>, pub gap_edges: Vec<Date> }
+pub struct FxCase { pub cal: Calendar, pub today: Date, pub cutoff: Date, pub lookups: Vec<Date>, pub gap_edges: Vec<Date>,
+    /// an earlier run (its today, its look-ups) whose cache the run under test inherits; None = empty cache
+    pub earlier_run: Option<(Date, Vec<Date>)> }
 
 impl FxCase {
-    pub fn to_json(&self) -> JsonValue { json::object! { calendar: self.cal.to_json(), junk: self.cal.junk_entries, today: self.today.to_string(), cutoff: self.cutoff.to_string(), lookups: self.lookups.iter().map(|d| d.to_string()).collect::<Vec<_>>() } }
+    pub fn to_json(&self) -> JsonValue { json::object! { calendar: self.cal.to_json(), junk: self.cal.junk_entries, today: self.today.to_string(), cutoff: self.cutoff.to_string(), lookups: self.lookups.iter().map(|d| d.to_string()).collect::<Vec<_>>(), earlier_today: self.earlier_run.as_ref().map(|e| e.0.to_string()), earlier_lookups: self.earlier_run.as_ref().map(|e| e.1.iter().map(|d| d.to_string()).collect::<Vec<_>>()).unwrap_or_default() } }
     pub fn from_json(v: &JsonValue) -> Option<FxCase> {
         let mut cal = Calendar::from_json(&v["calendar"])?; cal.junk_entries = v["junk"].as_bool().unwrap_or(false);
         let d = |k: &str| crate::gen::parse_date(v[k].as_str()?);
-        Some(FxCase { cal, today: d("today")?, cutoff: d("cutoff")?, lookups: v["lookups"].members().filter_map(|x| x.as_str().and_then(crate::gen::parse_date)).collect(), gap_edges: vec![] })
+        Some(FxCase { cal, today: d("today")?, cutoff: d("cutoff")?, lookups: v["lookups"].members().filter_map(|x| x.as_str().and_then(crate::gen::parse_date)).collect(), gap_edges: vec![], earlier_run: d("earlier_today").map(|t| (t, v["earlier_lookups"].members().filter_map(|x| x.as_str().and_then(crate::gen::parse_date)).collect())) })
     }
 }
 
@@ -78,7 +80,9 @@ fn strategy(_t: Tier) -> BoxedStrategy<FxCase> {
             let d = base + Duration::days(off);
             if d.year() >= 1990 && d.year() <= 2030 { lookups.push(d); }
         }
-        FxCase { cal, today, cutoff, lookups, gap_edges: edges }
+        // a third of the runs inherit the cache of an earlier run (30 days to ~2 years before) that looked up a few dates of its own
+        let earlier_run = if tix % 3 == 0 { let back = 30 + (tix as i64 / 3) % 700; let et = today - Duration::days(back); if et > first + Duration::days(30) { Some((et, vec![et - Duration::days(2), et - Duration::days(40), ymd(et.year(), 1, 4)])) } else { None } } else { None };
+        FxCase { cal, today, cutoff, lookups, gap_edges: edges, earlier_run }
     }).boxed()
 }
 
@@ -86,7 +90,17 @@ fn check(c: &FxCase, obs: &mut O) -> Verdict {
     crate::observe::reset_globals(c.today);
     let requests = Rc::new(RefCell::new(vec![]));
     let bank = FakeBank { cal: c.cal.clone(), cutoff: c.cutoff, requests: requests.clone() };
-    let mut loader = RateLoader::new_cached_remote_loader(false, Box::new(InMemoryRatesCache::new()), Box::new(bank), WriteHandle::empty_write_handle());
+    let shared: acb::util::rc::RcRefCell<std::collections::HashMap<u32, Vec<acb::fx::DailyRate>>> = acb::util::rc::RcRefCellT::new(std::collections::HashMap::new());
+    if let Some((et, looks)) = &c.earlier_run {
+        // the earlier run, by the product itself, over what the bank had published by then
+        acb::util::date::set_todays_date_for_test(*et);
+        let bank0 = FakeBank { cal: c.cal.clone(), cutoff: *et, requests: Rc::new(RefCell::new(vec![])) };
+        let mut l0 = RateLoader::new_cached_remote_loader(false, Box::new(InMemoryRatesCache { rates_by_year: shared.clone() }), Box::new(bank0), WriteHandle::empty_write_handle());
+        for d in looks { let _ = guard(|| l0.blocking_get_effective_usd_cad_rate(*d)); }
+        acb::util::date::set_todays_date_for_test(c.today);
+        obs.class("inherits-the-cache-of-an-earlier-run");
+    }
+    let mut loader = RateLoader::new_cached_remote_loader(false, Box::new(InMemoryRatesCache { rates_by_year: shared.clone() }), Box::new(bank), WriteHandle::empty_write_handle());
     for d in &c.lookups {
         let want = reference(&c.cal, c.cutoff, c.today, *d);
         let got = match guard(|| loader.blocking_get_effective_usd_cad_rate(*d)) { Ok(g) => g, Err(p) => return Verdict::Fail(format!("panic looking up {d}: {}", p.sig())) };
